@@ -1,6 +1,6 @@
 PROP = dict(
     harness="c03", level="exploration",
-    quick=dict(cases=48000, max_size=60, workers=16),
+    quick=dict(cases=160000, max_size=60, workers=16),
     thorough=dict(cases=2400000, max_size=150, workers=16, timeout=7200),
     rule=("rapidcheck programs on x86-64 / x86-32 / AArch64 Assemblers: label creation, forward/backward references (jmp, jmp short, jcc, jcc short, call, "
           "jecxz, loop, RIP-relative / absolute lea and memory operands with trailing imm8/imm32; b, bl, b.cond, cbz, tbz, adr, ldr-literal), embed_label, "
